@@ -3,6 +3,7 @@
 package searchset
 
 import (
+	"sort"
 	"fmt"
 	"strings"
 	"testing"
@@ -56,6 +57,22 @@ func vshowToks(ts tokenizer.Tokens) string {
 		ps = append(ps, fmt.Sprintf("%d:%s", t.Offset, hxs(t.Text)))
 	}
 	return strings.Join(ps, " ")
+}
+
+func vshowMRs(l MatchRanges) string {
+	var ps []string
+	for _, r := range l {
+		ps = append(ps, fmt.Sprintf("%d,%d,%d,%d", r.SrcStart, r.SrcEnd, r.TargetStart, r.TargetEnd))
+	}
+	return strings.Join(ps, ";")
+}
+
+func vshowGroups(gs []MatchRanges) string {
+	var ps []string
+	for _, g := range gs {
+		ps = append(ps, vshowMRs(g))
+	}
+	return strings.Join(ps, "|")
 }
 
 // voracleTokens checks C17's tokenizer clause on the real Tokenize output.
@@ -177,6 +194,90 @@ func TestVerifC17(t *testing.T) {
 			w = voracleRanges(src, tgt, b, mrs)
 		}
 		o.verdict("C17", id, w == "", len(mrs) > 0, "fpm:"+hxs(a)+"|"+hxs(b), map[string]interface{}{"what": w, "source_hex": hxs(a), "target_hex": hxs(b)})
+		// stage v1post: what FindPotentialMatches does after targetMatchedRanges + sort.Sort, against the
+		// Lean model LC/Model/V1Search; the sorted list is recorded (fresh ranges: the stages mutate them)
+		if !pan {
+			var sorted MatchRanges
+			catch(func() { sorted = targetMatchedRanges(src, tgt) })
+			if len(sorted) > 0 {
+				sort.Sort(sorted)
+				o.corr("v1post", "q"+id, []string{vshowMRs(sorted)}, vshowGroups(mrs))
+				// the hypotheses of post_inv, monitored on the real list
+				hw := ""
+				for k, r := range sorted {
+					if !(0 <= r.TargetStart && r.TargetStart < r.TargetEnd && r.TargetEnd <= len(tgt.Tokens)) {
+						hw = fmt.Sprintf("targetMatchedRanges range %d target [%d,%d) outside the %d target tokens", k, r.TargetStart, r.TargetEnd, len(tgt.Tokens))
+					}
+					if k > 0 && sorted[k-1].TargetStart > r.TargetStart {
+						hw = "sort.Sort(matched) did not order by TargetStart"
+					}
+				}
+				o.verdict("C17", "h"+id, hw == "", true, "hyp:"+hxs(a)+"|"+hxs(b), map[string]interface{}{"what": hw, "source_hex": hxs(a), "target_hex": hxs(b)})
+			}
+		}
 	}
-	o.stat("C17", map[string]interface{}{"strings": n, "pairs": m})
+	// the same stages on synthetic sorted lists (the inner loops of mergeConsecutiveRanges are hardly
+	// reached through FindPotentialMatches): random ranges over a small target, sorted by the code's own
+	// Less, run through the real untangle/split/merge/coalesce
+	ns := 400
+	if vthorough() {
+		ns = 60000
+	}
+	for i := 0; i < ns; i++ {
+		rr := r.fork(uint64(3000000 + i))
+		nt := 6 + rr.intn(30)
+		sz := 1 + rr.intn(5)
+		var l MatchRanges
+		for k := 0; k < 1+rr.intn(12); k++ {
+			ts := rr.intn(nt - 1)
+			w := sz
+			if rr.chance(1, 4) {
+				w = 1 + rr.intn(6)
+			}
+			if ts+w > nt {
+				w = nt - ts
+			}
+			ss := rr.intn(nt)
+			sw := w
+			if rr.chance(1, 5) {
+				sw = 1 + rr.intn(6)
+			}
+			l = append(l, &MatchRange{SrcStart: ss, SrcEnd: ss + sw, TargetStart: ts, TargetEnd: ts + w})
+		}
+		sort.Sort(l)
+		in := vshowMRs(l)
+		var out []MatchRanges
+		pan, msg := catch(func() {
+			out = mergeConsecutiveRanges(splitRanges(untangleSourceRanges(l)))
+			for k := range out {
+				out[k] = coalesceMatchRanges(out[k])
+			}
+		})
+		id := fmt.Sprintf("y%d", i)
+		res := "PANIC " + msg
+		if !pan {
+			res = vshowGroups(out)
+		}
+		o.corr("v1post", id, []string{in}, res)
+		// the property's facts on these outputs too
+		w := ""
+		for gi, g := range out {
+			if len(g) == 0 {
+				w = fmt.Sprintf("group %d is empty", gi)
+			}
+			for ri, x := range g {
+				if !(0 <= x.TargetStart && x.TargetStart < x.TargetEnd && x.TargetEnd <= nt) {
+					w = fmt.Sprintf("group %d range %d target [%d,%d) outside %d tokens", gi, ri, x.TargetStart, x.TargetEnd, nt)
+				}
+				if ri > 0 && g[ri-1].TargetStart > x.TargetStart {
+					w = fmt.Sprintf("group %d not ordered by target position at %d", gi, ri)
+				}
+			}
+		}
+		if pan {
+			w = "post-processing panicked: " + msg
+		}
+		o.verdict("C17", id, w == "", len(out) > 0, "syn:"+in, map[string]interface{}{"what": w, "sorted": in})
+	}
+	o.stat("C17", map[string]interface{}{"strings": n, "pairs": m, "synthetic_lists": ns})
 }
